@@ -76,6 +76,22 @@ theorem sparkRun_nd (n : Nat) (d : Bytes) (evs : List SparkEv) :
     | render => exact sparkTrim_nd n t hr hc
   · simp [akeys]
 
+theorem renderStep_nd (n : Nat) (t : Table) (s co : List Bytes) (ro : Bytes → List Bytes)
+    (hr : (akeys t.rows).Nodup) (hc : (akeys t.cols).Nodup) :
+    (akeys (renderStep n t s co ro).rows).Nodup ∧ (akeys (renderStep n t s co ro).cols).Nodup := by
+  unfold renderStep; split
+  · exact ⟨trim_ndr _ _ _ _ hr, trim_nd _ _ _ _ hc⟩
+  · exact ⟨hr, hc⟩
+
+/-- every table a `spark` run can hold – any interleaving of samples and render steps with any sorted column lists and
+map iteration orders – has duplicate-free row and column keys (they are Go maps) -/
+theorem reach_nd {lt : Bytes → Bytes → Bool} {n : Nat} {d : Bytes} {h : List Bytes} {t : Table}
+    (hr : SparkReach lt n d h t) : (akeys t.rows).Nodup ∧ (akeys t.cols).Nodup := by
+  induction hr with
+  | init => simp [akeys]
+  | sample h t e _ ih => exact ⟨sample_ndr t e ih.1, sample_nd t e ih.2⟩
+  | render h t s co ro _ _ _ ih => exact renderStep_nd n t s co ro ih.1 ih.2
+
 /-! ### `csv.WriteTable` looks at names and cells only -/
 
 theorem ins_name (x : Bytes) (v : Int) : ∀ l : List NV,
